@@ -4,7 +4,7 @@ import QV.C30.Model
 import QV.C30.Spec
 /-! Driver side of the C30 correspondence check.
 
-input  `(c30 decls body perm)`
+input  `(c30 decls body perm declared)`
          decls = `(("b" bit) ("i" integer) …)`  (program.memory_regions, IndexMap order)
          body  = projected instructions (see `decodeInstr`), perm = indices into body
 output `(verdicts v vPermuted vDoubled vRenamed)`, `v = (ok) | (err <kind> <index>)`.
@@ -97,19 +97,30 @@ def renameRot (n : String) : String :=
   if n == "b" then "i" else if n == "i" then "o" else if n == "o" then "r" else if n == "r" then "u"
   else if n == "u" then "b" else "~" ++ n
 
+/-- the harness's second renaming: onto names some stage of quil-rs treats specially (injective too) -/
+def renameSpecial (n : String) : String :=
+  if n == "b" then "pi" else if n == "i" then "BIT" else if n == "o" then "sin" else if n == "r" then "REAL"
+  else if n == "u" then "I" else "Cis-" ++ n
+
+/-- a construction-route verdict: a verdict, or `(na reason)` (text route only) -/
+def decodeRoute : Sexp → Option (Option Verdict)
+  | .list [.atom "na", _] => some none
+  | v => (decodeVerdict v).map some
+
 def exprDepthOf : Instr CFloat → Nat
   | .realArg _ e => e.depth
   | _ => 0
 
 def handle (inp out : Sexp) : CaseResult :=
   match inp with
-  | .list [.atom "c30", declS, .list bodyS, .list permS] =>
-    match decodeDecls declS, decodeAll decodeInstr bodyS, decodeAll Sexp.asNat? permS with
-    | some Γ, some bodyT, some perm =>
+  | .list [.atom "c30", declS, .list bodyS, .list permS, declaredS] =>
+    match decodeDecls declS, decodeAll decodeInstr bodyS, decodeAll Sexp.asNat? permS, decodeDecls declaredS with
+    | some Γ, some bodyT, some perm, some declared =>
       match out with
-      | .list [.atom "verdicts", v0, v1, v2, v3] =>
-        match decodeVerdict v0, decodeVerdict v1, decodeVerdict v2, decodeVerdict v3 with
-        | some i0, some i1, some i2, some i3 =>
+      | .list (.atom "verdicts" :: v0 :: v1 :: v2 :: v3 :: v4 :: routeS) =>
+        match decodeVerdict v0, decodeVerdict v1, decodeVerdict v2, decodeVerdict v3, decodeVerdict v4,
+              decodeAll decodeRoute routeS with
+        | some i0, some i1, some i2, some i3, some i4, some routes =>
           let body := bodyT.map (·.1)
           let permuted := perm.filterMap fun k => body[k]?
           -- the model
@@ -117,37 +128,54 @@ def handle (inp out : Sexp) : CaseResult :=
           let m1 := ofResult (typeCheck imBig Γ permuted)
           let m2 := ofResult (typeCheck imBig Γ (body ++ body))
           let m3 := ofResult (typeCheck imBig (Γ.rename renameRot) (body.map (Instr.rename renameRot)))
-          let agree := m0 == i0 && m1 == i1 && m2 == i2 && m3 == i3
+          let m4 := ofResult (typeCheck imBig (Γ.rename renameSpecial) (body.map (Instr.rename renameSpecial)))
+          -- every construction route (from_instructions, +, +=, to_quil→from_str, with ill-typed definition
+          -- bodies added, a second call) must give the verdict of the program itself
+          let routesModel := routes.length == 6 && routes.all fun r => match r with
+            | some v => v == m0
+            | none => true
+          let routesSpec := routes.length == 6 && routes.all fun r => match r with
+            | some v => v == i0
+            | none => true
+          let agree := m0 == i0 && m1 == i1 && m2 == i2 && m3 == i3 && m4 == i4 && routesModel
           -- the specification on the implementation's verdicts
           let isRealLit : CFloat → Bool := fun z => !imBig z
           let s1 := i0.isOk == allWellTypedB isRealLit Γ body        -- ok ⇔ every instruction well-typed on its own
           let s2 := i1.isOk == i0.isOk                               -- reordering
           let s3 := i2 == i0                                         -- duplicating (same first error too)
-          let s4 := i3 == i0                                         -- consistent renaming
+          let s4 := i3 == i0 && i4 == i0                             -- consistent renaming (two maps)
+          let s6 := routesSpec                                       -- construction routes agree
+          -- the stored declarations are exactly "the LAST declaration of each name wins" (computed from the
+          -- generator's own list, not from what quil-rs stored)
+          let s7 := declared.all (fun (n, _) => Γ.get n == declared.reverse.lookup n) &&
+            Γ.all (fun (n, _) => (declared.lookup n).isSome) &&
+            Γ.length == (declared.map (·.1)).eraseDups.length
           let s5 := match i0 with                                    -- the error names the first ill-typed instruction
             | .ok => true
             | .err _ k => (body[k]?.map (wellTypedB isRealLit Γ)) == some false &&
                 (body.take k).all (wellTypedB isRealLit Γ)
-          let specOk := s1 && s2 && s3 && s4 && s5
+          let specOk := s1 && s2 && s3 && s4 && s5 && s6 && s7
           let kinds := (bodyT.map (·.2)).eraseDups
           let depth := (body.map exprDepthOf).foldl max 0
           let tags :=
             kinds ++
-            [s!"len{min body.length 8}",
+            [if body.length > 32 then "len33+" else s!"len{min body.length 8}",
              match i0 with
              | .ok => "verdict-ok"
              | .err k i => s!"verdict-{k}@{min i 8}"] ++
             (if body.any (fun i => match i with | .realArg .. => true | _ => false) then [s!"exprdepth{min depth 6}"] else []) ++
-            (if perm != List.range body.length then ["permuted"] else [])
+            (if perm != List.range body.length then ["permuted"] else []) ++
+            [if Γ.length > 8 then "decls-many" else s!"decls{Γ.length}",
+             match routes[3]? with | some (some _) => "text-route" | _ => "text-na"]
           { agree := agree, specOk := specOk,
             nontrivial := body.any fun i => match i with | .other => false | _ => true,
             tags := tags,
-            detail := s!"spec[ok-iff-each={s1} perm={s2} dup={s3} rename={s4} first-error={s5}] " ++
-              s!"model=({m0.render} {m1.render} {m2.render} {m3.render}) impl={out}" }
-        | _, _, _, _ =>
+            detail := s!"spec[ok-iff-each={s1} perm={s2} dup={s3} rename={s4} first-error={s5} routes={s6} decls-last-wins={s7}] " ++
+              s!"model=({m0.render} {m1.render} {m2.render} {m3.render} {m4.render}) impl={out}" }
+        | _, _, _, _, _, _ =>
           { agree := false, specOk := false, nontrivial := true, tags := ["impl-crash-or-undecodable"], detail := s!"impl={out}" }
       | _ => { agree := false, specOk := false, nontrivial := true, tags := ["impl-crash-or-undecodable"], detail := s!"impl={out}" }
-    | _, _, _ => .bad s!"undecodable input {inp}"
+    | _, _, _, _ => .bad s!"undecodable input {inp}"
   | _ => .bad s!"undecodable input {inp}"
 
 end QV.C30
